@@ -113,6 +113,22 @@ Example C05_full_refuted_shape :
   enc_canonical c' = map n2b [134; 1; 1; 0] ++ map n2b [2; 74] ++ map n2b [0; 54; 85; 125; 0; 0; 0; 0; 0; 0; 68; 109; 66; 243; 169].
 Proof. vm_compute. repeat split; reflexivity. Qed.
 
+(* the SECOND mechanism behind C05_full_refuted (audit of DESIGN D-27): a two-byte window over the ARRAY HEAD of the CRC-16 payload block
+     86 01 01 00 01 44 00 00 00 43 42 7a 05   ->   85 1a 01 00 01 44 00 00 00 43 42 7a 05
+   re-frames the block: type 0x01000144, number 0, flags 0, CRC type 0 (a payload byte), data 43 42 7a 05.  The decoded block carries NO
+   CRC, has the same length, re-encodes to the received bytes and passes the check trivially - the premise "the decoded block keeps
+   its CRC type" of the window class excludes it, nothing weaker does *)
+Definition reframe_sent : list byte := map n2b [159; 137; 7; 0; 1; 130; 2; 130; 1; 1; 130; 2; 130; 1; 1; 130; 2; 130; 1; 1; 130; 0; 0; 26; 0; 54; 238; 128; 66; 240; 36; 134; 10; 2; 0; 1; 68; 130; 24; 32; 0; 66; 136; 17; 134; 1; 1; 0; 1; 68; 0; 0; 0; 67; 66; 122; 5; 255].
+Definition reframe_received : list byte := map n2b [159; 137; 7; 0; 1; 130; 2; 130; 1; 1; 130; 2; 130; 1; 1; 130; 2; 130; 1; 1; 130; 0; 0; 26; 0; 54; 238; 128; 66; 240; 36; 134; 10; 2; 0; 1; 68; 130; 24; 32; 0; 66; 136; 17; 133; 26; 1; 0; 1; 68; 0; 0; 0; 67; 66; 122; 5; 255].
+Definition reframe_view (b : bundle) :=
+  (crc_valid b, map crc_code (block_crcs b), bundle_bytes b,
+   map (fun x => Nlen x) (enc_primary (b_primary b) :: map enc_canonical (b_canonicals b))).
+Example C05_ex_reframed :
+  rmap reframe_view (from_cbor reframe_sent) = Ok (true, [1; 1; 1], reframe_sent, [30; 13; 13])
+  /\ firstn 44 reframe_received = firstn 44 reframe_sent /\ skipn 46 reframe_received = skipn 46 reframe_sent
+  /\ rmap reframe_view (from_cbor reframe_received) = Ok (true, [1; 1; 0], reframe_received, [30; 13; 13]).
+Proof. vm_compute. repeat split; reflexivity. Qed.
+
 (* ---- an uncorrupted bundle passes; a bundle without CRC fields passes trivially ---- *)
 Theorem C05_uncorrupted_passes : forall b0, wf_bundle b0 = true ->
   exists b', from_cbor (fst (to_cbor b0)) = Ok b' /\ b' = snd (to_cbor b0) /\ crc_valid b' = true.
